@@ -144,25 +144,14 @@ theorem splice_spec_imp_flag (d : Ident) (h : d.hasSpliceVariant = true) :
     d.isSpliceAltering = true := by
   unfold Ident.hasSpliceVariant at h
   unfold Ident.isSpliceAltering Ident.isAltSplicing
-  simp only [Bool.and_eq_true, List.any_eq_true, List.contains_iff_mem] at h ⊢
-  obtain ⟨hk, x, hx, hy⟩ := h
-  exact ⟨hk, x, hx, variantType x, hy, isInfix_of_prefix _ _ (head_splitOnC_prefix '-' x)⟩
+  simpa [variantType] using h
 
-/-- … and equals it when every variant id that mentions a splice type has such a type.
-(`SECT-…` violates this hypothesis: see the `example` below and the known finding.) -/
-theorem splice_flag_eq_spec (d : Ident)
-    (hclean : ∀ x ∈ d.v1, (Generated.altSpliceTypes.any fun y => isInfix y x) = true →
-      Generated.altSpliceTypes.contains (variantType x) = true) :
-    d.isSpliceAltering = d.hasSpliceVariant := by
-  rw [Bool.eq_iff_iff]
-  constructor
-  · intro h
-    unfold Ident.isSpliceAltering Ident.isAltSplicing at h
-    unfold Ident.hasSpliceVariant
-    simp only [Bool.and_eq_true, List.any_eq_true] at h ⊢
-    obtain ⟨hk, x, hx, y, hy, hp⟩ := h
-    exact ⟨hk, x, hx, hclean x hx (List.any_eq_true.mpr ⟨y, hy, hp⟩)⟩
-  · exact splice_spec_imp_flag d
+/-- … and (after the `fix:` that compares the variant TYPE instead of testing `'SE' in id`)
+equals it for every entry: an entry is splice-altering iff it is a base-variant entry carrying
+a variant whose type is SE / A5SS / A3SS / RI / MXE. -/
+theorem splice_flag_eq_spec (d : Ident) : d.isSpliceAltering = d.hasSpliceVariant := by
+  unfold Ident.isSpliceAltering Ident.isAltSplicing Ident.hasSpliceVariant
+  simp [variantType]
 
 /-- **filter_peptide_iff.** A peptide is kept iff its miscleavage count is within the range and
 some entry of its (normalised) header is kept; the kept record has the same sequence and
@@ -466,11 +455,11 @@ example : keepEntry { cfg0 with keepCanonical := true } true [s "T1", s "SNV-1-A
 /-- a missing transcript is a KeyError, not a decision -/
 example : keepEntry cfg0 false [s "T9", s "SNV-1-A-T", s "1"] = .error .keyError := by decide
 
-/-- the code's splice flag is wider than the definition: `SECT-…` contains `SE` -/
-example : (Ident.mk .base (s "T2") none [s "SECT-5"] [] [] none (some 1)).isSpliceAltering = true ∧
-    (Ident.mk .base (s "T2") none [s "SECT-5"] [] [] none (some 1)).hasSpliceVariant = false := by
+/-- `SECT-…` (selenocysteine termination) is not splice-altering although it contains `SE`
+(it was, before the `fix:`) -/
+example : (Ident.mk .base (s "T2") none [s "SECT-5"] [] [] none (some 1)).isSpliceAltering = false ∧
+    (Ident.mk .base (s "T2") none [s "SE-5-9"] [] [] none (some 1)).isSpliceAltering = true := by
   decide
-example : keepEntry cfg0 false [s "T2", s "SECT-5", s "1"] = .ok true := by decide
 
 /-- entries of the documented grammar are `NormIdem` … -/
 example : normLabel [s "T1", s "SNV-1-A-T", s "W2F-3", s "ORF2", s "4"] =
